@@ -26,6 +26,7 @@ var externalAssumptions = map[string]string{
 	"fmt.Println":             "writes to stdout only; no program state modified",
 	"fmt.Printf":              "writes to stdout only; no program state modified",
 	"errors.New":              "returns a fresh non-nil error",
+	"reflect.DeepEqual":       "pure; never panics; returns some bool",
 	"strconv.Itoa":            "pure; returns some string",
 	"strconv.Atoi":            "pure and deterministic: (value, error) are functions of the argument string only",
 	"strconv.ParseFloat":      "pure and deterministic: (value, error) are functions of the argument string (bitSize 64) only",
@@ -52,6 +53,8 @@ func shortKey(key string) string {
 func (e *Engine) pureExternal(key string) bool {
 	k := shortKey(key)
 	switch {
+	case k == "reflect.DeepEqual":
+		return true
 	case strings.HasPrefix(k, "fmt."), strings.HasPrefix(k, "strconv."), strings.HasPrefix(k, "strings."),
 		strings.HasPrefix(k, "errors."), strings.HasPrefix(k, "unicode"), strings.HasPrefix(k, "math."),
 		strings.HasPrefix(k, "slices.Contains"):
